@@ -96,22 +96,25 @@ Print Assumptions C31_cancel_window_clause10.
 (* ---- publish/subscribe ---- *)
 (* a subscriber receives a prefix of: the latest value at subscription, then every value
    published while it is subscribed (before shutdown), in publish order -- for every order in
-   which Publish ranges over the subscriber map (the ord argument of GPub).  Hypothesis:
-   Subscriber objects are not re-subscribed (see C31_pubsub_resubscribe_stale) *)
-Theorem C31_pubsub_order : forall s l pf e, steps3 ps0 l = (pf, e) -> NoDup (sub_ids l) ->
+   which Publish ranges over the subscriber map (the ord argument of GPub) and with test
+   blockers (GBlock/GRelease) making the queue lag arbitrarily.  Hypotheses: s is not the id
+   reserved for the test blocker; Subscriber objects are not re-subscribed (FINDING clause 11,
+   see C31_pubsub_resubscribe_stale) *)
+Theorem C31_pubsub_order : forall s l pf e, s <> blocker -> steps3 ps0 l = (pf, e) -> NoDup (sub_ids l) ->
   exists rest, owed_spec s sp0 l = del_to s e ++ rest.
 Proof. exact pubsub_order. Qed.
 Print Assumptions C31_pubsub_order.
 
 (* nothing after unsubscription (this half needs no hypothesis) *)
-Theorem C31_pubsub_nothing_after_unsubscribe : forall s l1 p1 e1 l2 p2 e2,
+Theorem C31_pubsub_nothing_after_unsubscribe : forall s l1 p1 e1 l2 p2 e2, s <> blocker ->
   steps3 ps0 l1 = (p1, e1) -> memz s (psubs p1) = false ->
   steps3 p1 l2 = (p2, e2) -> ~ In s (sub_ids l2) -> del_to s e2 = [].
 Proof. exact pubsub_nothing_when_unsubscribed. Qed.
 Print Assumptions C31_pubsub_nothing_after_unsubscribe.
 
-(* model-level observation: a Subscriber that unsubscribes and subscribes again while the run
-   goroutine lags receives callbacks queued during its first subscription *)
+(* FINDING (clause 11, reproduced on the real code by the driver): a Subscriber that unsubscribes
+   and subscribes again while the run goroutine lags receives callbacks queued during its first
+   subscription, so it does not start with the latest value at subscription *)
 Theorem C31_pubsub_resubscribe_stale :
   del_to 1 (snd (steps3 ps0 stale_ops)) = [2; 2] /\ owed_spec 1 sp0 stale_ops = [1; 2; 2].
 Proof. exact pubsub_resubscribe_stale. Qed.
@@ -122,6 +125,13 @@ Theorem C31_holds_on_every_model_trace : forall cfg ops, wf cfg ops = true ->
   exists obs, run cfg ops = Some obs /\ holds_b cfg ops obs = true.
 Proof. exact model_trace_holds. Qed.
 Print Assumptions C31_holds_on_every_model_trace.
+
+Theorem C31_resubscribe_clause11 :
+  exists obs, run [3] [[1; 1]; [7]; [2; 1]; [2; 2]; [6; 1]; [1; 1]; [8]] = Some obs /\
+              existsb (fun c => (fst (fst c) =? 11) && negb (snd c))
+                      (clauses [3] [[1; 1]; [7]; [2; 1]; [2; 2]; [6; 1]; [1; 1]; [8]] obs) = true.
+Proof. exact resubscribe_clause11. Qed.
+Print Assumptions C31_resubscribe_clause11.
 
 Example C31_witness :
   wf [1] [[1; 5]; [1; 6]; [3]; [4]; [2]; [4]; [2]; [4]] = true /\
